@@ -163,13 +163,12 @@ def slices(tier):
         S("deep-r", ["v", "u", "f", "g", "c", "gv", "one", "two", "onehalf", "z", "zz"], DEEP, 6, False, idx=(10, 11), maxrank=2, simulate=50 if q else 500),
         S("deep-c", ["v", "u", "f", "c", "gu", "one", "two", "imag", "z", "zz"], (DEEP | {"conj", "real", "imag"}) - {"restrict", "pow"}, 6, True, idx=(10, 11), maxrank=2, simulate=40 if q else 350),
         S("deep-vec-c", ["vv", "uu", "c", "f", "two", "z", "zz"], {"inner", "dot", "outer", "conj", "mul", "index", "isum", "add", "sub", "list", "as_tensor", "div", "cond", "lt", "real"}, 5, True, idx=(10, 11), maxrank=2, simulate=25 if q else 250),
-        # ---- group "x" (own TLC runs, experiment with three arguments) ----
+        # ---- group "x": own TLC runs (the experiment has three arguments where a slice needs them) ----
         # trilinear forms: in complex mode the third argument is "treated as a trial function"
-        S("rank3-c", ["v", "u", "w", "f"], {"mul", "conj", "add"}, 3, True, group="x"),
-        S("rank3-r", ["v", "u", "w", "f", "two"], {"mul", "add", "div"}, 2 if q else 3, False, group="x"),
+        S("rank3-c", ["v", "u", "w"] + ([] if q else ["f"]), {"mul", "conj"} | (set() if q else {"add"}), 3, True, group="x"),
         # block systems: the test / trial function split into parts (same number, different part)
-        S("parts-r", ["v0", "v1", "u0", "u1", "f", "c", "z"], {"list", "dot", "mul", "add"}, 2 if q else 3, False, group="x"),
-        S("parts-c", ["v0", "v1", "u0", "u1", "c"], {"list", "inner", "dot", "conj", "mul"}, 2 if q else 3, True, group="x"),
+        S("parts-r", ["v0", "v1", "u0", "u1", "c"] + ([] if q else ["z"]), {"list", "dot", "mul", "add"}, 2, False, group="x"),
+        S("parts-c", ["v0", "v1", "u0", "u1", "c"], {"list", "inner", "dot", "conj", "mul"}, 2, True, group="x"),
     ]
     if not q:
         out += [
@@ -183,6 +182,14 @@ def slices(tier):
             S("index4-r", ["vv", "c", "one"], {"index", "isum", "mul", "list"}, 4, False),
             S("cond-c", ["v", "f", "z"], {"lt", "cond", "real", "conj", "mul"}, 3, True),
             S("alg3-c", ["v", "u", "f"], {"add", "mul", "conj"}, 3, True),
+            # group "x", three constructor calls: full block bilinear forms dot(<v0, v1>, <u0, u1>), conditionals
+            # between parts, trilinear forms in real mode, and deep random terms
+            S("rank3-r", ["v", "u", "w"], {"mul", "add"}, 3, False, group="x"),
+            S("parts3-r", ["v0", "v1", "u0", "u1", "c"], {"list", "dot", "mul"}, 3, False, group="x"),
+            S("parts3-c", ["v0", "v1", "u0", "u1"], {"list", "inner", "conj", "mul"}, 3, True, group="x"),
+            S("condparts-r", ["v0", "v1", "f", "z"], {"lt", "cond", "mul"}, 3, False, group="x"),
+            S("deep3-c", ["v", "u", "w", "gw", "ww", "f", "c", "two", "imag", "z"], (DEEP | {"conj", "real"}) - {"restrict", "pow"}, 6, True, idx=(10, 11), maxrank=2, simulate=150, group="x"),
+            S("deepparts-r", ["v0", "v1", "u0", "u1", "f", "c", "one", "two", "z", "zz"], DEEP, 6, False, idx=(10, 11), maxrank=2, simulate=200, group="x"),
         ]
     return out
 
@@ -960,7 +967,7 @@ def judge(col, run, pool, recs, results, tv=None, ctx=None):
             bad = [(n, c) for n, c in zip(_nums(fa), classes) if c[0] == "no"]
             if acc and bad:
                 kind = "affine" if all(c[1] == "affine" for _, c in bad) else "nonlinear"
-                fp = f"C14:accepts-{kind}:{r['culprit']}"
+                fp = f"C14:accepts-{kind}:{r['culprit']}" + _fp_class(fa, [n for n, _ in bad])
                 col.count("violating_terms:" + fp)
                 col.violation(fp, f"{prog_txt} (lowered: {r['lowered']}) is accepted with form arguments {_fa_txt(fa)}{' in complex mode' if run.cm else ''} but is {kind} in argument(s) {[n for n, _ in bad]}", dict(rdoc, fa=fa))
             elif acc and any(c[0] == "unknown" for c in classes):
@@ -1177,6 +1184,17 @@ def _bad_args(r, rv):
     return [n for n in _nums(rv["fa"]) if r["sem"][n][0] == "no"]
 
 
+def _fp_class(fa, bad):
+    """Suffix of a fingerprint: the class of form arguments the failure needs (nothing for the test /
+    trial function of a bilinear form without parts)."""
+    out = ""
+    if any(n >= 2 for n in bad):
+        out += ":argument-number>=2"
+    if any(p >= 0 and n in bad for n, p in fa):
+        out += ":argument-parts"
+    return out
+
+
 def _fa_txt(fa):
     return [n if p < 0 else f"{n}.{p}" for n, p in fa]
 
@@ -1198,7 +1216,7 @@ def report_counterexample(ctx, col, cex):
     ctx.traces(1)
     if rv["v"] == "accept" and bad:
         kind = "affine" if all(r["sem"][n][1] == "affine" for n in bad) else "nonlinear"
-        col.violation(f"C14:accepts-{kind}:{r['culprit']}", f"[TLC counterexample] {r['str']} is accepted but {kind} in argument(s) {bad}", {"run": rn.to_json(), "pool": pool.to_json(), "sl": sl, "prog": prog, "fa": rv["fa"]})
+        col.violation(f"C14:accepts-{kind}:{r['culprit']}" + _fp_class(rv["fa"], bad), f"[TLC counterexample] {r['str']} is accepted but {kind} in argument(s) {bad}", {"run": rn.to_json(), "pool": pool.to_json(), "sl": sl, "prog": prog, "fa": rv["fa"]})
     elif rv["v"] == "reject":
         col.count("as_coded_counterexample_rejected_by_real_code(code_follows_intended_rule)")
     else:
@@ -1216,7 +1234,7 @@ def handle_intended_failure(ctx, col, rn, pool, res):
             bad = _bad_args(r, rv)
             if rv["v"] == "accept" and bad:
                 kind = "affine" if all(r["sem"][n][1] == "affine" for n in bad) else "nonlinear"
-                col.violation(f"C14:accepts-{kind}:{r['culprit']}", f"[TLC counterexample, intended rule] {r['str']} accepted but {kind} in {bad}", {"run": rn.to_json(), "pool": pool.to_json(), "sl": sl, "prog": prog, "fa": rv["fa"]})
+                col.violation(f"C14:accepts-{kind}:{r['culprit']}" + _fp_class(rv["fa"], bad), f"[TLC counterexample, intended rule] {r['str']} accepted but {kind} in {bad}", {"run": rn.to_json(), "pool": pool.to_json(), "sl": sl, "prog": prog, "fa": rv["fa"]})
                 return
     tail = "\n".join(res.stdout.splitlines()[-30:])
     raise MachineryError(f"run {rn.name}: {res.violated} fails for the intended rule on {prog} and the real code does not reproduce it ({r.get('status')}, {r.get('real')}, {r.get('sem')})\n{tail}")
